@@ -27,7 +27,7 @@ CHECKS = {
    design="DESIGN.md section 5, C04"),
  'C05': dict(
    technique="stateful property-based testing (Hypothesis RuleBasedStateMachine) against an explicit model of the documented limit/termination semantics",
-   text="Same generated histories as C04 plus exit requests (through mystic._signal.Handler with input patched) and limit pairs incl. 0, 1, None, new=True/False. A Python model keeps the absolute limits as documented; before every Step it decides from its own counts whether the solver must refuse to start (limit reached, termination true, exit requested): then no cost call, no callback and a message; otherwise exactly one iteration. Solve runs under a callback guard (must return within the model's generation limit); stop messages must name a condition true of the final state. Exploration only; 'Solve always returns' is a bounded check.",
+   text="Same generated histories as C04 plus exit requests (through mystic._signal.Handler with input patched) and limit pairs incl. 0, 1, None, new=True/False. A Python model keeps the absolute limits as documented; before every Step it decides from its own counts whether the solver must refuse to start (limit reached, termination true, exit requested): then no cost call, no callback and a message; otherwise exactly one iteration. Solve runs under a callback guard (must return within the model's generation limit); stop messages must name a condition true of the final state. Second test: the one-call wrappers fmin / fmin_powell / diffev / diffev2 with generated maxiter (incl. 0) and maxfun: the returned warnflag must name a limit that the harness's own counts (recorded cost calls, callback invocations) show to be reached, 0 only when neither is, and the counts respect the limits up to one iteration's worth. Exploration only; 'Solve always returns' is a bounded check.",
    note="Trusted: the model's reading of SetEvaluationLimits (new=True counts from the call; None = nDim*nPop*scale, counted from the solver's next look at its limits when new), termination conditions themselves (checked by C10), the recorder.",
    design="DESIGN.md section 5, C05"),
  'C06': dict(
